@@ -1319,7 +1319,7 @@ func (r *run) boot() {
 	utxo.UTXO_WRITING_TIME_TARGET = time.Duration(cfg.SaveTargetMs) * time.Millisecond
 	utxo.UTXO_SKIP_SAVE_BLOCKS = cfg.SkipSave
 	r.n = Boot(r.dir, NodeOpts{P: cfg.P, Genesis: cfg.genesis(), CompressBlocks: cfg.CompressBlocks, CacheBlocks: cfg.CacheBlocks,
-		MaxFileSize: uint64(cfg.MaxFileKB) << 10, ClientRecovery: cfg.ClientRecovery, LibraryTail: cfg.Testnet4, RealAlloc: cfg.RealAlloc})
+		MaxFileSize: uint64(cfg.MaxFileKB) << 10, ClientRecovery: cfg.ClientRecovery, LibraryTail: cfg.Testnet4, RealAlloc: cfg.RealAlloc, CompressOpt: cfg.FreshDir && cfg.CompressUTXO})
 	if r.n.ParseTillLeft && !r.bad {
 		r.viol("client.network-held-after-replay", "the client's start-up replay of stored blocks ended without reaching the block it was heading for (a stored block failed on the way) and common.Last.ParseTill stays set: the main loop skips every network tick while it is (\"hold on network for now\"), so the node stays deaf until it is restarted (tip %s)", hs(r.n.Ch.LastBlock().BlockHash.Hash))
 	}
